@@ -124,6 +124,11 @@ def abort_violation(exc, what):
                      f"{exc.res[1]}", f"{what}: {exc}",
                      {'aborted': what, 'event': exc.ev})
         return st
+    if type(exc).__name__ == 'SetupViolated':
+        st = Stats()
+        st.violation(f"{CURRENT_PROP}:setup:{exc.kind}", f"{what}: {exc}",
+                     {'aborted': what})
+        return st
     tb = traceback.extract_tb(exc.__traceback__)
     lib = [fr for fr in tb if '/quantity/' in fr.filename
            and '/verif/' not in fr.filename]
